@@ -7,6 +7,8 @@ From Errdef Require Import Base.Str Model.Core Model.GoErrors.
 Inductive cb :=
 | CRet (e : option nat)                       (* return errs[e] / nil *)
 | CPanicErr (e : nat)                         (* panic(errs[e]) *)
+| CPanicInner (e : nat)                       (* panic(pe) when errs[e] is an errdef error whose only direct cause is a
+                                                 PanicError pe (what an earlier Recover returned), else panic(errs[e]) *)
 | CPanicVal (id : N) (fmtv : string)          (* panic(v), v not an error; fmtv = Sprintf("%v", v) *)
 | CPanicRt (msg : string) (tyname : string)   (* a runtime error (fresh error value), incl. panic(nil) *)
 | CCall (c : cb)                              (* one more call level before c *)
@@ -56,6 +58,11 @@ Definition bump (s : st) (used : N) : st :=
   {| s_defs := s_defs s; s_ctxs := s_ctxs s; s_errs := s_errs s; s_next := (s_next s + used)%N; s_norg := s_norg s |}.
 
 (* ---- Recover (definition.go:183-196, panic.go) ---- *)
+Definition inner_panic (x : err) : err :=
+  match x with
+  | EDef _ _ _ (Some (EPanic a m id oe)) _ _ => EPanic a m id oe
+  | _ => x
+  end.
 Inductive pval := PVErr (e : err) | PVOther (id : N) (fmtv : string).
 Inductive cbres := Normal (r : option err) | Panicking (v : pval).
 
@@ -77,6 +84,11 @@ Fixpoint eval_cb (s : st) (c : cb) (next : N) : cbres * N :=
   | CPanicErr e =>
       match get_err s (Some e) with
       | Some x => (Panicking (PVErr x), next)
+      | None => (Panicking (PVErr (ELeaf next "panic called with nil argument" "*runtime.PanicNilError")), (next + 1)%N)
+      end
+  | CPanicInner e =>
+      match get_err s (Some e) with
+      | Some x => (Panicking (PVErr (inner_panic x)), next)
       | None => (Panicking (PVErr (ELeaf next "panic called with nil argument" "*runtime.PanicNilError")), (next + 1)%N)
       end
   | CPanicVal id fmtv => (Panicking (PVOther id fmtv), next)
@@ -137,7 +149,7 @@ Definition oidx_ok (n : nat) (o : option nat) : bool :=
 Fixpoint cb_ok (nd ne : nat) (c : cb) : bool :=
   match c with
   | CRet e => oidx_ok ne e
-  | CPanicErr e => Nat.ltb e ne
+  | CPanicErr e | CPanicInner e => Nat.ltb e ne
   | CPanicVal _ _ | CPanicRt _ _ => true
   | CCall c' => cb_ok nd ne c'
   | CRecover f c' _ => Nat.ltb f nd && cb_ok nd ne c'
